@@ -83,27 +83,27 @@ def PlainArg (g : Gate) : Prop := g.name.isCtl = true → g.arg = 0
 
 /-- **One handled gate**: the product of the routed gates is the gate.  Every `setup`; when the
 router drops classical conditions (`cc = false`) the gate must not carry one. -/
-theorem routeGateV_den {N : Nat} {interp : Gate → M} (laws : SwapLaws N interp) (cc : Bool) (setup : Setup)
-    (g : Gate) (hw : WellFormed N g) (hh : Handled g)
+theorem routeGateV_den {N : Nat} {interp : Gate → M} (laws : SwapLaws N interp) (cc rz : Bool) (setup : Setup)
+    (g : Gate) (hw : WellFormedV rz N g) (hh : HandledV rz g)
     (hp : PlainArg g) (hx : cc = false → g.extra = 0) (out : List Gate)
-    (ho : routeGateV (.rep cc) N setup g = .ok out) :
+    (ho : routeGateV (.rep cc rz) N setup g = .ok out) :
     den interp out = interp g := by
-  have hcond : (Variant.rep cc).cond g = g.extra := by
+  have hcond : (Variant.rep cc rz).cond g = g.extra := by
     cases cc
     · rw [hx rfl]; rfl
     · rfl
-  rcases hh with hnm | hnm
-  · obtain ⟨c, t, hC, hT, hct, hc, ht⟩ := hw.1 hnm
-    obtain ⟨out', S, h1, h2⟩ := routeCtl_specV cc N setup g c t hnm hC hT hct hc ht
+  rcases hh with (hnm | hnm) | ⟨hrz, hnm⟩
+  · obtain ⟨c, t, hC, hT, hct, hc, ht⟩ := hw.1.1 hnm
+    obtain ⟨out', S, h1, h2⟩ := routeCtl_specV cc rz N setup g c t hnm hC hT hct hc ht
     rw [routeGateV_ctl hnm hC hT, h1] at ho
     cases ho
-    have hG : (⟨g.name, [track S c], [track S t], 0, (Variant.rep cc).cond g⟩ : Gate) = g.relabel (track S) := by
+    have hG : (⟨g.name, [track S c], [track S t], 0, (Variant.rep cc rz).cond g⟩ : Gate) = g.relabel (track S) := by
       simp [Gate.relabel, hC, hT, hcond, hp hnm]
     rw [h2.out_eq, hG]
     exact den_conj laws S (fun p hp => ⟨(h2.swaps_ok p hp).1, (h2.swaps_ok p hp).2.1, (h2.swaps_ok p hp).2.2.1⟩)
       g ⟨c, t, by simp [Gate.qubits, hC, hT], hct, hc, ht⟩
-  · obtain ⟨t0, t1, hC, hT, h01, h0, h1⟩ := hw.2 hnm
-    obtain ⟨S, p, q, h2, h3⟩ := routeSwp_specV cc N setup g t0 t1 h01 h0 h1
+  · obtain ⟨t0, t1, hC, hT, h01, h0, h1⟩ := hw.1.2 hnm
+    obtain ⟨S, p, q, h2, h3⟩ := routeSwp_specV cc rz N setup g t0 t1 h01 h0 h1
     rw [routeGateV_swp hnm hT] at ho
     cases ho
     have hg : g = ⟨g.name, [], [t0, t1], g.arg, g.extra⟩ := by
@@ -113,7 +113,7 @@ theorem routeGateV_den {N : Nat} {interp : Gate → M} (laws : SwapLaws N interp
     have hSok := fun p hp => (⟨(h2.swaps_ok p hp).1, (h2.swaps_ok p hp).2.1, (h2.swaps_ok p hp).2.2.1⟩ :
       p.1 < N ∧ p.2 < N ∧ p.1 ≠ p.2)
     rw [h2.out_eq, hcond]
-    rcases h3 with ⟨rfl, rfl⟩ | ⟨rfl, rfl⟩
+    rcases h3 with ⟨rfl, rfl⟩ | ⟨-, rfl, rfl⟩
     · have hG : (⟨g.name, [], [track S t0, track S t1], g.arg, g.extra⟩ : Gate) = g.relabel (track S) := by
         simp [Gate.relabel, hC, hT]
       rw [hG]
@@ -122,19 +122,35 @@ theorem routeGateV_den {N : Nat} {interp : Gate → M} (laws : SwapLaws N interp
           (⟨g.name, [], [t1, t0], g.arg, g.extra⟩ : Gate).relabel (track S) := rfl
       rw [hG, den_conj laws S hSok _ ⟨t1, t0, rfl, h01.symm, h1, h0⟩]
       exact (laws.exch_symm g.name t0 t1 g.arg g.extra hnm h0 h1 h01).symm.trans (congrArg interp hg.symm)
+  · -- an ordered two-target gate (RZX): the routed gate lists the images of its targets in their order
+    subst hrz
+    obtain ⟨t0, t1, hC, hT, h01, h0, h1⟩ := hw.2 rfl hnm
+    obtain ⟨S, p, q, h2, h3⟩ := routeSwp_specV cc true N setup g t0 t1 h01 h0 h1
+    rw [routeGateV_ord hnm hT] at ho
+    cases ho
+    have hSok := fun p hp => (⟨(h2.swaps_ok p hp).1, (h2.swaps_ok p hp).2.1, (h2.swaps_ok p hp).2.2.1⟩ :
+      p.1 < N ∧ p.2 < N ∧ p.1 ≠ p.2)
+    rw [h2.out_eq, hcond]
+    rcases h3 with ⟨rfl, rfl⟩ | ⟨hf, -, -⟩
+    · have hG : (⟨g.name, [], [track S t0, track S t1], g.arg, g.extra⟩ : Gate) = g.relabel (track S) := by
+        simp [Gate.relabel, hC, hT]
+      rw [hG]
+      exact den_conj laws S hSok g ⟨t0, t1, by simp [Gate.qubits, hC, hT], h01, h0, h1⟩
+    · simp [hnm] at hf
 
 /-- the instance for `routeGate` (`Variant.fixed`) and the two documented setups -/
 theorem routeGate_den {N : Nat} {interp : Gate → M} (laws : SwapLaws N interp) (setup : Setup)
     (_hs : setup = .linear ∨ setup = .circular) (g : Gate) (hw : WellFormed N g) (hh : Handled g)
     (hp : Plain g) (out : List Gate) (ho : routeGate N setup g = .ok out) :
     den interp out = interp g :=
-  routeGateV_den laws false setup g hw hh hp.2 (fun _ => hp.1) out ho
+  routeGateV_den laws false false setup g ((wellFormedV_false N g).mpr hw) ((handledV_false g).mpr hh) hp.2
+    (fun _ => hp.1) out ho
 
 /-- **A whole circuit** -/
-theorem toChainV_den {N : Nat} {interp : Gate → M} (laws : SwapLaws N interp) (cc : Bool) (setup : Setup)
-    (gs : List Gate) (hw : ∀ g ∈ gs, WellFormed N g)
-    (hp : ∀ g ∈ gs, Handled g → PlainArg g) (hx : cc = false → ∀ g ∈ gs, Handled g → g.extra = 0)
-    (out : List Gate) (ho : toChainV (.rep cc) N setup gs = .ok out) :
+theorem toChainV_den {N : Nat} {interp : Gate → M} (laws : SwapLaws N interp) (cc rz : Bool) (setup : Setup)
+    (gs : List Gate) (hw : ∀ g ∈ gs, WellFormedV rz N g)
+    (hp : ∀ g ∈ gs, HandledV rz g → PlainArg g) (hx : cc = false → ∀ g ∈ gs, HandledV rz g → g.extra = 0)
+    (out : List Gate) (ho : toChainV (.rep cc rz) N setup gs = .ok out) :
     den interp out = den interp gs := by
   induction gs generalizing out with
   | nil =>
@@ -147,8 +163,8 @@ theorem toChainV_den {N : Nat} {interp : Gate → M} (laws : SwapLaws N interp) 
       (fun h g hg => hx h g (List.mem_cons_of_mem _ hg)) b hb
     rw [den_append, hb', den]
     congr 1
-    by_cases hh : Handled g
-    · exact routeGateV_den laws cc setup g (hw g (List.mem_cons_self ..)) hh (hp g (List.mem_cons_self ..) hh)
+    by_cases hh : HandledV rz g
+    · exact routeGateV_den laws cc rz setup g (hw g (List.mem_cons_self ..)) hh (hp g (List.mem_cons_self ..) hh)
         (fun h => hx h g (List.mem_cons_self ..) hh) a ha
     · rw [routeGateV_other hh] at ha; cases ha
       simp [den]
